@@ -144,6 +144,17 @@ def _protocol(events):
     return p
 
 
+def _flag(value, hist):
+    """the route flag as it comes out of a boolean array or a DataFrame
+    column (numpy.bool_) for about half of the calls (decided by the history
+    so far, so that a replay makes the same calls); the replayed reference
+    model gets the plain Python bool"""
+    import zlib
+    if zlib.crc32(repr(hist).encode()) % 2:
+        return np.bool_(value)
+    return bool(value)
+
+
 def replay(tg, st):
     m = tg.fresh()
     if st.admin is not None:
@@ -328,7 +339,7 @@ def apply(ctx, rng, tg, m, st, op, side, hist):
             try:
                 m.set_administration(tg.comps[op[1]][0],
                                      amount_var=tg.comps[op[1]][1],
-                                     direct=op[2])
+                                     direct=_flag(op[2], hist))
             except (KeyError, ValueError):
                 ctx.count('refused_configuration_calls')
                 after = observe(m, tg)
@@ -345,7 +356,8 @@ def apply(ctx, rng, tg, m, st, op, side, hist):
                          if k_ in _original_parameters(tg, st.admin)}
             return m, st
         m.set_administration(tg.comps[op[1]][0],
-                             amount_var=tg.comps[op[1]][1], direct=op[2])
+                             amount_var=tg.comps[op[1]][1],
+                             direct=_flag(op[2], hist))
         st.admin = (tg.comps[op[1]], op[2])
         st.sens = False
         st.sens_sub = None
